@@ -106,6 +106,28 @@ func runC15(c *Ctx) {
 		}
 	}
 
+	// the recorded set is the diff base: nothing else may change it between two end-blocks
+	c.OnlyCalledFrom("pk.Keeper.SetLastProviderConsensusValSet", "pk.Keeper.ProviderValidatorUpdates")
+	c.OnlyCalledFrom("pk.Keeper.SetLastProviderConsensusValidator")
+	c.OnlyCalledFrom("pk.Keeper.DeleteLastProviderConsensusValidator")
+	c.OnlyCalledFrom("pk.Keeper.DeleteLastProviderConsensusValSet")
+	for _, h := range []string{"pk.Keeper.setValSet", "pk.Keeper.setValidator", "pk.Keeper.deleteValidator", "pk.Keeper.deleteValSet"} {
+		sites, _ := c.Callers(h)
+		ke := &keyEval{p: c.P}
+		for _, s := range sites {
+			cl, ok := s.(ssa.CallInstruction)
+			if !ok {
+				continue
+			}
+			if leadingConst(ke.evalBytes(arg(cl, 1), nil)) != "LastProviderConsensusValsKey" {
+				continue
+			}
+			top := shortName(ssaFuncName(topFn(s.Parent())))
+			okW := map[string]bool{"keeper.Keeper.SetLastProviderConsensusValSet": true, "keeper.Keeper.SetLastProviderConsensusValidator": true, "keeper.Keeper.DeleteLastProviderConsensusValidator": true, "keeper.Keeper.DeleteLastProviderConsensusValSet": true}[top]
+			c.Check(okW, fk(topFn(s.Parent()), "writes-recorded-provider-set"), s, "the recorded provider consensus set is written only through its dedicated accessors")
+		}
+	}
+
 	// ---- R2 ------------------------------------------------------------------------------------
 	c.Rule("R2", "CreateProviderConsensusValidator: provider consensus key, consensus address and GetLastValidatorPower of the same validator", 3)
 	if f := c.Fn("pk.Keeper.CreateProviderConsensusValidator"); f != nil {
